@@ -99,7 +99,12 @@ def gen_case(r):
         if quoted:
             # which special character is quoted: "! (a literal !), "" (a literal "), or "" directly before a real separator
             quoted = r.choice(['!q', '!q', '"q', '"'])
-        entries.append({'levels': levels, 'fmt': fmt, 'quoted': quoted})
+        braced = False
+        if r.random() < 0.1 and levels[0][0] == levels[0][1] and not (quoted and nl == 1):
+            # a key that starts with a brace group ({Zz}word): the braces are markup, the sort text is Zzword
+            levels[0] = ['Zz' + levels[0][0], 'Zz' + levels[0][0]]
+            braced = True
+        entries.append({'levels': levels, 'fmt': fmt, 'quoted': quoted, 'braced': braced})
     return entries
 
 
@@ -109,6 +114,8 @@ def print_entry(e):
         s, d = tex_escape(sort), tex_escape(disp)
         if disp.startswith('MATH:'):
             d = '$\\%s$' % disp[5:]
+        if e.get('braced') and i == 0:
+            d = s = '{Zz}' + tex_escape(disp[2:])
         if e['quoted'] and i == len(e['levels']) - 1:
             # a quoted special character inside the key: "! is a literal !, "" a literal "
             q = ''.join('"' + ch if ch in '!"' else ch for ch in e['quoted'])
